@@ -161,6 +161,7 @@ struct worker {
 	sem_t go, done;
 	const char *op;
 	int tid;
+	int cpu;
 	int quit;
 	unsigned seq;
 };
@@ -176,7 +177,7 @@ emit_ev(const char *mcv, const void *p, int n)
 	ovni_ev_emit(&ev);
 }
 
-/* pid of the traced process; thread ids are pidbase + 1, + 2, + 3 (VERIF_PIDBASE: another process of the same loom) */
+/* pid of the traced process; thread ids are pidbase (A and, later, C), + 2 (B), + 3 (D) (VERIF_PIDBASE: another process of the same loom) */
 static int pidbase = 100;
 
 static void
@@ -197,7 +198,7 @@ do_op(struct worker *w, const char *op)
 		ovni_add_cpu(4, 4);
 		ovni_add_cpu(5, 5);
 	} else if (strcmp(op, "x") == 0) {
-		struct { int32_t cpu, tid; uint64_t tag; } __attribute__((packed)) x = { w->tid % 100 - 1 + (pidbase == 100 ? 0 : 3), w->tid, 0 };
+		struct { int32_t cpu, tid; uint64_t tag; } __attribute__((packed)) x = { w->cpu + (pidbase == 100 ? 0 : 3), w->tid, 0 };
 		emit_ev("OHx", &x, 16);
 	} else if (strcmp(op, "e") == 0) {
 		emit_ev("OHe", NULL, 0);
@@ -274,7 +275,9 @@ main(int argc, char *argv[])
 	 * its first owner ended, as the kernel does) */
 	/* D is a third concurrent thread with its own id */
 	for (int i = 0; i < 4; i++) {
-		W[i].tid = pidbase + (i == 2 ? 1 : (i == 3 ? 3 : 1 + i));
+		/* the initial thread's id is the process id, as in every real program */
+		W[i].tid = pidbase + (i == 1 ? 2 : (i == 3 ? 3 : 0));
+		W[i].cpu = i == 1 ? 1 : (i == 3 ? 2 : 0);
 		sem_init(&W[i].go, 0, 0);
 		sem_init(&W[i].done, 0, 0);
 	}
